@@ -4,12 +4,17 @@ CONSTANTS
   BoundSel = {1,2,3,4}
   FactorSel = {1,2}
   PriorSel = {1,2,3,4}
+  ModeSel = {1,2,3,4,5,6,7}
   KSel = {0,2,3,5}
   MaxLevel = 15
   PriorTable = "persist_user_only"
   ViewSpace = "prior_mode"
   DerivedLookup = "derived"
   ObsMerge = "always"
+  ModeStore = "canonical"
+  UpdateGuard = "before"
+  ModeCalls <- MCModeCalls
+  InvalidModes <- MCInvalidModes
   ObsParams <- MCObsParams
   Record = TRUE
   Export = "sim"
